@@ -363,7 +363,7 @@ def run(ctx):
                 "reduced alphabet per registry; every bracketing; state = projection of the merged "
                 "trace; reference = union / sum / min on the abstract specs")
     ctx.assume("alphabet traces respect the tracer's invariant (see C10); hit count 2 stands for "
-               ">= 2; distances from {0, 0.5, 1, 7, inf}")
+               ">= 2; distances from {0, 5e-17, 0.5, 1, 7, inf}")
     ctx.assume("order independence is required of the coverage/fitness-relevant projection "
                "(executed code objects, hit counts, distances, covered and checked lines), not of "
                "the order of executed_instructions or of ordered-set iteration order")
